@@ -36,6 +36,8 @@ type LockFile struct {
 	// Params: the parameter names of every function under contract when the lock was written. Contracts bind
 	// parameters by position: if a parameter is renamed, the name used in the contract still denotes that position.
 	Params map[string][]string `json:"params,omitempty"`
+	// LoopVars: per function under contract and loop ordinal, the named variables the loop carries ("name|type").
+	LoopVars map[string]map[string][]string `json:"loopvars,omitempty"`
 }
 
 func groupOf(id string) string {
@@ -332,6 +334,7 @@ func cmdRelock(args []string) int {
 			}
 		}
 	}
+	loopVarsReset := false
 	if *pflag == "" {
 		lf.Params = map[string][]string{}
 	} else if lf.Params == nil {
@@ -347,6 +350,13 @@ func cmdRelock(args []string) int {
 		}
 		if len(names) > 0 {
 			lf.Params[FuncKey(f)] = names
+		}
+		if lf.LoopVars == nil || *pflag == "" && !loopVarsReset {
+			lf.LoopVars = map[string]map[string][]string{}
+			loopVarsReset = true
+		}
+		if sig := loopVarSignature(f); len(sig) > 0 {
+			lf.LoopVars[FuncKey(f)] = sig
 		}
 	}
 	b, _ := json.MarshalIndent(lf, "", " ")
@@ -620,6 +630,14 @@ func cmdCheck(args []string) int {
 			} else {
 				und = append(und, o)
 			}
+		}
+		// members of a partly discharged group that were undecided on the unchanged tree too are not claimed
+		if e.Undecided > 0 {
+			n := e.Undecided
+			if len(und) < n {
+				n = len(und)
+			}
+			baselineUndecided += n
 		}
 		want := e.Discharged
 		if len(os) < e.Discharged+e.Undecided {
@@ -1111,6 +1129,11 @@ func (w *World) mapRangeOrderDependence(f *ssa.Function, rg *ssa.Range) string {
 			if bi, ok := c.Value.(*ssa.Builtin); ok {
 				if bi.Name() == "append" {
 					if v, ok := ins.(ssa.Value); ok && !sortedLater(v) {
+						if fld := w.unsortedFieldSink(f, v); fld != "" {
+							// the slice ends in a struct field that no function of the module ever sorts: its order is
+							// the map's order wherever it is used (definite, like printing)
+							return "the loop appends to a slice that nothing sorts (kept in " + fld + ", which no function of the module hands to a sort): prints map order: " + w.Fset.Position(ins.Pos()).String()
+						}
 						return "the loop appends to a slice that is never sorted: " + w.Fset.Position(ins.Pos()).String()
 					}
 				}
@@ -1224,6 +1247,112 @@ func (w *World) mapRangeOrderDependence(f *ssa.Function, rg *ssa.Range) string {
 		}
 	}
 	return ""
+}
+
+// unsortedFieldSink: the slice class of v is used, besides indexing / len / range / append, only by being stored into
+// struct fields, and no function of the module passes a value read from one of those fields to sort.* / slices.Sort*.
+// Returns the field ("T.f") or "".
+func (w *World) unsortedFieldSink(f *ssa.Function, v ssa.Value) string {
+	cls := sliceClassOf(f, v)
+	type fkey struct {
+		st  string
+		idx int
+	}
+	var fields []fkey
+	var names []string
+	for m := range cls {
+		refs := m.Referrers()
+		if refs == nil {
+			continue
+		}
+		for _, r := range *refs {
+			switch x := r.(type) {
+			case *ssa.Store:
+				if x.Val != m {
+					continue
+				}
+				switch a := x.Addr.(type) {
+				case *ssa.FieldAddr:
+					pt, ok := under(a.X.Type()).(*types.Pointer)
+					if !ok {
+						return ""
+					}
+					stt, ok := under(pt.Elem()).(*types.Struct)
+					if !ok {
+						return ""
+					}
+					fields = append(fields, fkey{typeKey(pt.Elem()), a.Field})
+					names = append(names, typeKey(pt.Elem())+"."+stt.Field(a.Field).Name())
+				case *ssa.Alloc:
+					// the variable's own cell (class member)
+				default:
+					return ""
+				}
+			case *ssa.Return, *ssa.MakeInterface, *ssa.MakeClosure, *ssa.Send, *ssa.MapUpdate:
+				return ""
+			case ssa.CallInstruction:
+				if bi, ok := x.Common().Value.(*ssa.Builtin); ok {
+					switch bi.Name() {
+					case "append", "len", "cap":
+						continue
+					}
+				}
+				return "" // handed to some function: it may sort it
+			}
+		}
+	}
+	if len(fields) == 0 {
+		return ""
+	}
+	for _, g := range w.Funcs {
+		if !w.InModule(g) {
+			continue
+		}
+		for _, b := range g.Blocks {
+			for _, ins := range b.Instrs {
+				ci, ok := ins.(ssa.CallInstruction)
+				if !ok {
+					continue
+				}
+				sc := ci.Common().StaticCallee()
+				if sc == nil || len(ci.Common().Args) == 0 {
+					continue
+				}
+				name := sc.String()
+				if !(strings.HasPrefix(name, "sort.") || strings.HasPrefix(name, "slices.Sort")) {
+					continue
+				}
+				a := ci.Common().Args[0]
+				if mk, ok := a.(*ssa.MakeInterface); ok {
+					a = mk.X
+				}
+				if ct, ok := a.(*ssa.ChangeType); ok {
+					a = ct.X
+				}
+				for m := range sliceClassOf(g, a) {
+					u, ok := m.(*ssa.UnOp)
+					if !ok || u.Op != token.MUL {
+						continue
+					}
+					fa, ok := u.X.(*ssa.FieldAddr)
+					if !ok {
+						continue
+					}
+					pt, ok := under(fa.X.Type()).(*types.Pointer)
+					if !ok {
+						continue
+					}
+					for _, fk := range fields {
+						if fk.st == typeKey(pt.Elem()) && fk.idx == fa.Field {
+							return ""
+						}
+					}
+				}
+			}
+		}
+	}
+	sort.Strings(names)
+	return names[0]
 }
 
 // isLogSink: zerolog events written per call (diagnostics on stderr).
